@@ -785,5 +785,136 @@ def streamLazy (rks : List Bytes) (dec : Bool) (iv aad : Bytes) (parts : List By
 theorem stream_eq_streamWith : @stream = streamWith false := rfl
 theorem streamLazy_eq_streamWith : @streamLazy = streamWith true := rfl
 
+/-! ### C20: the API-undefined `garbage` stored in `pbEncKey` by `init` never matters -/
+
+/-- the fold of `stream`, started from `init … garbage`: final context and all output bytes -/
+def runG (garbage : Bytes) (lz : Bool) (rks : List Bytes) (dec : Bool) (iv aad : Bytes) (parts : List Bytes) :
+    Ctx × Bytes :=
+  parts.foldl (fun (acc : Ctx × Bytes) p =>
+      let u := update rks dec acc.1 p lz; (u.1, acc.2 ++ u.2)) (init rks iv aad garbage, [])
+
+/-- `init garbage; update*; finalize` -/
+def streamWithG (garbage : Bytes) (lz : Bool) (rks : List Bytes) (dec : Bool) (iv aad : Bytes)
+    (parts : List Bytes) (tagLen : Nat) : Bytes × Bytes :=
+  ((runG garbage lz rks dec iv aad parts).2, (finalize rks (runG garbage lz rks dec iv aad parts).1 tagLen).2)
+
+theorem streamWith_eq_streamWithG : @streamWith = streamWithG (List.replicate 16 0) := rfl
+
+theorem streamWithG_eq {rks : List Bytes} (hk : ∀ k ∈ rks, k.length = 16) {iv : Bytes} (hiv : iv.length = 12)
+    (g : Bytes) (lz dec : Bool) (aad : Bytes) (parts : List Bytes) (t : Nat) :
+    streamWithG g lz rks dec iv aad parts t =
+      (if dec then gcmDecExp rks iv aad parts.flatten t else gcmEncExp rks iv aad parts.flatten t) := by
+  obtain ⟨hI0, hF0⟩ := init_inv hk hiv dec aad g
+  obtain ⟨q, r, hI, hF, hout⟩ := fold_spec hk hiv lz parts [] hI0 hF0 (gctr_nil _ _).symm
+  rw [List.nil_append] at hI hF hout
+  unfold streamWithG runG
+  rw [finalize_spec hk hiv hI hF t, hout]
+  cases dec <;> rfl
+
+/-- Two contexts agree on every API-defined field: all fields but `pbEncKey`, and `pbEncKey` too when a
+    partial block is pending (`pbLen ≠ 0`). -/
+structure SameApi (c₁ c₂ : Ctx) : Prop where
+  aadHash : c₁.aadHash = c₂.aadHash
+  aadLen : c₁.aadLen = c₂.aadLen
+  inLen : c₁.inLen = c₂.inLen
+  origIV : c₁.origIV = c₂.origIV
+  curCount : c₁.curCount = c₂.curCount
+  pbLen : c₁.pbLen = c₂.pbLen
+  pbEncKey : c₁.pbLen ≠ 0 → c₁.pbEncKey = c₂.pbEncKey
+
+theorem phase2_garbage (rks : List Bytes) (dec : Bool) (c : Ctx) (g : Bytes) (k : Nat) (w : Bytes) :
+    phase2 rks dec { c with pbEncKey := g } k w =
+      ({ (phase2 rks dec c k w).1 with pbEncKey := g }, (phase2 rks dec c k w).2) := rfl
+
+theorem phase3_garbage (rks : List Bytes) (dec : Bool) (c : Ctx) (g : Bytes) (tail acc : Bytes) :
+    phase3 rks dec { c with pbEncKey := g } tail acc =
+      if tail = [] then ({ c with pbEncKey := g }, acc) else phase3 rks dec c tail acc := by
+  unfold phase3
+  split <;> rfl
+
+/-- one `update` from contexts that agree on the API-defined fields: same output, and the new contexts agree
+    on the API-defined fields -/
+theorem update_sameApi (rks : List Bytes) (dec : Bool) {c₁ c₂ : Ctx} (h : SameApi c₁ c₂) (data : Bytes)
+    (lz : Bool) :
+    (update rks dec c₁ data lz).2 = (update rks dec c₂ data lz).2 ∧
+    SameApi (update rks dec c₁ data lz).1 (update rks dec c₂ data lz).1 := by
+  by_cases hpb : c₁.pbLen = 0
+  · -- nothing pending: `pbEncKey` is not read, and it is either overwritten or still undefined afterwards
+    obtain ⟨a1, a2, a3, g1, a5, a6, a7⟩ := c₁
+    obtain ⟨b1, b2, b3, g2, b5, b6, b7⟩ := c₂
+    obtain ⟨e1, e2, e3, e5, e6, e7, _⟩ := h
+    simp only at e1 e2 e3 e5 e6 e7 hpb
+    subst e1 e2 e3 e5 e6 e7 hpb
+    rw [update_eq, update_eq]
+    by_cases hd : data = []
+    · rw [if_pos hd, if_pos hd]
+      exact ⟨rfl, ⟨rfl, rfl, rfl, rfl, rfl, rfl, fun h => absurd rfl h⟩⟩
+    · rw [if_neg hd, if_neg hd]
+      simp only [phase1, ne_eq, not_true_eq_false, if_false]
+      generalize nblkOf lz data = k
+      have := phase2_garbage rks dec ⟨a1, a2, (a3 + data.length) % 2^64, g2, a5, a6, 0⟩ g1 k (data.take (k * 16))
+      simp only at this
+      rw [this, phase3_garbage]
+      by_cases htl : data.drop (k * 16) = []
+      · rw [if_pos htl, htl, phase3_nil]
+        exact ⟨rfl, ⟨rfl, rfl, rfl, rfl, rfl, rfl, fun h => absurd rfl h⟩⟩
+      · rw [if_neg htl]
+        exact ⟨rfl, ⟨rfl, rfl, rfl, rfl, rfl, rfl, fun _ => rfl⟩⟩
+  · -- a block is pending: the two contexts are equal
+    have : c₁ = c₂ := by
+      obtain ⟨a1, a2, a3, g1, a5, a6, a7⟩ := c₁
+      obtain ⟨b1, b2, b3, g2, b5, b6, b7⟩ := c₂
+      obtain ⟨e1, e2, e3, e5, e6, e7, e4⟩ := h
+      simp only at e1 e2 e3 e5 e6 e7 e4 hpb
+      subst e1 e2 e3 e5 e6 e7
+      rw [e4 hpb]
+    subst this
+    exact ⟨rfl, ⟨rfl, rfl, rfl, rfl, rfl, rfl, fun _ => rfl⟩⟩
+
+theorem init_sameApi (rks : List Bytes) (iv aad g₁ g₂ : Bytes) :
+    SameApi (init rks iv aad g₁) (init rks iv aad g₂) :=
+  ⟨rfl, rfl, rfl, rfl, rfl, rfl, fun h => absurd rfl h⟩
+
+theorem fold_sameApi (rks : List Bytes) (dec lz : Bool) (parts : List Bytes) :
+    ∀ {c₁ c₂ : Ctx} (out : Bytes), SameApi c₁ c₂ →
+      (parts.foldl (fun (acc : Ctx × Bytes) p =>
+          let u := update rks dec acc.1 p lz; (u.1, acc.2 ++ u.2)) (c₁, out)).2 =
+      (parts.foldl (fun (acc : Ctx × Bytes) p =>
+          let u := update rks dec acc.1 p lz; (u.1, acc.2 ++ u.2)) (c₂, out)).2 ∧
+      SameApi
+        (parts.foldl (fun (acc : Ctx × Bytes) p =>
+          let u := update rks dec acc.1 p lz; (u.1, acc.2 ++ u.2)) (c₁, out)).1
+        (parts.foldl (fun (acc : Ctx × Bytes) p =>
+          let u := update rks dec acc.1 p lz; (u.1, acc.2 ++ u.2)) (c₂, out)).1 := by
+  induction parts with
+  | nil => intro c₁ c₂ out h; exact ⟨rfl, h⟩
+  | cons p ps ih =>
+    intro c₁ c₂ out h
+    obtain ⟨ho, hs⟩ := update_sameApi rks dec h p lz
+    rw [List.foldl_cons, List.foldl_cons]
+    simp only
+    rw [ho]
+    exact ih _ hs
+
+/-- after any sequence of updates, the outputs and every API-defined context field are independent of the
+    garbage (no hypothesis on the key schedule, IV or lengths) -/
+theorem runG_sameApi (g₁ g₂ : Bytes) (lz : Bool) (rks : List Bytes) (dec : Bool) (iv aad : Bytes)
+    (parts : List Bytes) :
+    (runG g₁ lz rks dec iv aad parts).2 = (runG g₂ lz rks dec iv aad parts).2 ∧
+    SameApi (runG g₁ lz rks dec iv aad parts).1 (runG g₂ lz rks dec iv aad parts).1 :=
+  fold_sameApi rks dec lz parts [] (init_sameApi rks iv aad g₁ g₂)
+
+/-- `finalize` only reads API-defined fields -/
+theorem finalize_sameApi (rks : List Bytes) {c₁ c₂ : Ctx} (h : SameApi c₁ c₂) (t : Nat) :
+    (finalize rks c₁ t).2 = (finalize rks c₂ t).2 := by
+  obtain ⟨a1, a2, a3, g1, a5, a6, a7⟩ := c₁
+  obtain ⟨b1, b2, b3, g2, b5, b6, b7⟩ := c₂
+  obtain ⟨e1, e2, e3, e5, e6, e7, _⟩ := h
+  simp only at e1 e2 e3 e5 e6 e7
+  subst e1 e2 e3 e5 e6 e7
+  unfold finalize
+  simp only
+  split <;> rfl
+
 end GcmStream
 end IsalVerif
